@@ -74,6 +74,9 @@ class Mismatch:
         name = self.op.name
         if self.direction.startswith('userdata-events'):
             return '%s:%s:%s' % (pid, self.direction, name)
+        if name in ('it', 'tw', 'list', 'map', 'rg', 'getById') and self.direction == 'result' and cls in domref.TAIL_ONLY:
+            # the operand class of the query itself names a known defect (e.g. a by-name lookup in a mis-ordered attribute map)
+            return '%s:%s:%s:%s' % (pid, self.direction, name, cls)
         if name in ('it', 'tw', 'list', 'map', 'rg', 'getById') and self.direction == 'result' and getattr(self, 'after', None):
             # answers of a live view: name the last tree mutation that preceded the wrong answer (narrow key)
             return '%s:%s:%s%s:after-%s' % (pid, self.direction, name, (':' + cls) if cls else '', self.after)
@@ -116,7 +119,8 @@ class Run:
         self.classes = {}
         self.states = set()
         self.view_queries_after_mutation = 0
-        self.opquirks = {}        # op index -> quirks applicable to that (mutating) operation
+        self.opquirks = {}        # op index -> quirks applicable to that (mutating or view-creating) operation
+        self.view_made = {}       # view number -> index of the operation that created it
 
 
 def lockstep(ops, obs, forced, upto=None, pid=PID, collect=None, base=frozenset()):
@@ -188,6 +192,10 @@ def lockstep(ops, obs, forced, upto=None, pid=PID, collect=None, base=frozenset(
                 run.opquirks[i] = list(exp.quirks)
         elif mutated and op.name in ('it', 'tw', 'list', 'map', 'rg', 'getById') and m.views:
             run.view_queries_after_mutation += 1
+        if op.name in ('mkList', 'mkIter', 'mkWalker', 'mkMap', 'mkRange') or (op.name == 'rg' and len(op.args) > 2 and op.args[1] == 'cloneRange'):
+            run.view_made[op.args[2] if op.name == 'rg' else op.args[0]] = i
+            if exp.quirks:
+                run.opquirks[i] = list(exp.quirks)
         run.seq.append((op.name, o.outcome))
         run.classes[op.name + ':' + exp.cls] = run.classes.get(op.name + ':' + exp.cls, 0) + 1
         if exp.codes is not None:
@@ -254,13 +262,27 @@ def compare_case(ops, obs, pid=PID, base=frozenset()):
         if mm is None:
             break
         explained = False
-        at = mm.i
         qs = list(dict.fromkeys(mm.exp.quirks)) if (mm.exp is not None and mm.exp.quirks) else []
-        if not qs and getattr(mm, 'after_i', None) is not None and mm.after_i not in forced:
-            # a wrong answer of a live view: the deviation may sit in the last tree mutation before the query
-            at = mm.after_i
-            qs = list(dict.fromkeys(run.opquirks.get(at, [])))
-        if at not in forced and qs:
+        cands = [(mm.i, qs)] if qs else []
+        if not qs and getattr(mm, 'after_i', None) is not None:
+            # a wrong answer of a live view: the deviation may sit in the last tree mutation before the query, ...
+            order = [mm.after_i]
+            if mm.op.name in ('it', 'tw', 'list', 'map', 'rg'):
+                # ... in the operation that created the view (a deep list taken from the document's pool), ...
+                if mm.op.args and mm.op.args[0] in run.view_made:
+                    order.append(run.view_made[mm.op.args[0]])
+                # ... or in an earlier mutation whose effect on THIS view was not queried before other mutations followed (the generator
+                # probes 1-3 of up to 8 live views after a mutation): the most recent operations with a known deviation, newest first
+                order.extend(sorted((k for k in run.opquirks if k < mm.i), reverse=True)[:8])
+            for k in dict.fromkeys(order):
+                q2 = list(dict.fromkeys(run.opquirks.get(k, [])))
+                if q2 and k not in forced:
+                    cands.append((k, q2))
+        for at, qs in cands:
+            if explained:
+                break
+            if at in forced:
+                continue
             combos = [frozenset([q]) for q in qs] + ([frozenset(qs)] if len(qs) > 1 else [])
             # one deviation can expose another one inside the same operation (e.g. an accepted xmlns name, then the node replacement of
             # setAttributeNS): last attempt with every known deviation switched on for this operation
